@@ -742,6 +742,30 @@ func (P *Program) registerStd() {
 	P.reg("math/bits.Len32", bitsLen(32))
 	P.reg("math/bits.Len16", bitsLen(16))
 	P.reg("math/bits.Len8", bitsLen(8))
+	// ---- internal/bytealg (assembly in the standard library): first index of a byte
+	indexByte := func(fr *frame, args []value) value {
+		in := fr.in
+		var bs []value
+		switch x := args[0].(type) {
+		case sliceVal:
+			bs = x
+		case string:
+			bs = in.bytesOfString(x)
+		case bstr:
+			bs = x.b
+		default:
+			panic(unsupported{"bytealg.IndexByte on a symbolic string"})
+		}
+		c := tm(args[1])
+		for i, b := range bs {
+			if in.branch(in.C.Eq(tm(b), c)) {
+				return in.intv(int64(i))
+			}
+		}
+		return in.intv(-1)
+	}
+	P.reg("internal/bytealg.IndexByte", indexByte)
+	P.reg("internal/bytealg.IndexByteString", indexByte)
 	P.reg("sort.Slice", sortSlice)
 	P.reg("sort.SliceStable", sortSlice)
 	// ---- misc
